@@ -159,6 +159,8 @@ impl Path {
             name_part.copy_from_slice(part.as_bytes());
             name_parts.push(name_part);
         }
+        // MultiNamePrefix carries the segment count in a single byte.
+        assert!(name_parts.len() <= u8::MAX as usize);
 
         Path { root, name_parts }
     }
